@@ -72,7 +72,7 @@ def rich_world(seed, n_chroms=6, genes_per_chrom=3, groups=3, multimappers=True,
     rng = w.rng
     for ci in range(n_chroms):
         cname = "chr%d" % (ci + 1)
-        w.add_chrom(cname, 60000 + ci * 4321 + genes_per_chrom * 9000 + extra_len + (196000 if zoo else 0))
+        w.add_chrom(cname, 60000 + ci * 4321 + genes_per_chrom * 9000 + extra_len + (205000 if zoo else 0))
         pos = 1500
         for gi in range(genes_per_chrom):
             gid = "G%d_%d" % (ci + 1, gi + 1)
@@ -793,6 +793,35 @@ def two_genes_shared_introns_locus(w, gid, chrom, p, strand):
     return [ga, gb], p + span
 
 
+def weak_known_sibling_locus(w, gid, chrom, p, strand):
+    """T1 = five exons, T2 = exons 1, 3, 5 of it; an unannotated isoform uses T1's first intron, an acceptor 10 bp before T1's second intron
+    ends (unannotated intron) and T2's second intron.  T1 is weakly covered (3 reads against 10): in the intron graph the ANNOTATED intron is
+    the weak sibling of the novel one."""
+    span = 5000
+
+    def m(a, b):
+        return (p + a, p + b) if strand == "+" else (p + span - b, p + span - a)
+
+    def exs(lst):
+        return sorted(m(a, b) for a, b in lst)
+    t1 = exs([(0, 200), (1000, 1150), (2000, 2200), (3000, 3150), (4000, 4400)])
+    t2 = exs([(0, 200), (2000, 2200), (4000, 4400)])
+    nov = exs([(0, 200), (1000, 1150), (1990, 2200), (4000, 4400)])
+    g = Gene(gid, chrom, strand)
+    g.transcripts.append(Transcript(gid + ".t1", gid, chrom, strand, t1, True, "weakly-covered-annotated"))
+    g.transcripts.append(Transcript(gid + ".t2", gid, chrom, strand, t2, True, "annotated"))
+    g.hidden.append(Transcript(gid + ".h1", gid, chrom, strand, nov, False, "novel-site-10bp-from-a-weak-annotated-one"))
+    for t in g.transcripts + g.hidden:
+        for intr in t.introns:
+            w.plant_sites(chrom, intr, strand)
+    w.genes.append(g)
+    tail = dict(polya=30) if strand == "+" else dict(polyt=30, flag=16)
+    for t, n in ((g.transcripts[0], 3), (g.transcripts[1], 5), (g.hidden[0], 10)):
+        for _ in range(n):
+            w.make_read(chrom, list(t.exons), truth={"src": t.id, "class": "exact"}, **tail)
+    return g, p + span
+
+
 def near_site_novel_locus(w, gid, chrom, p, strand):
     """t1 = e1..e5, t2 = e1-e3-e5 (annotated); the unannotated isoform e1-e2-e3-e5' is a new combination of annotated introns except
     that its last junction (first for '-') sits 3 bp away from the annotated site of t2's intron: that intron is unannotated, although it
@@ -865,7 +894,7 @@ def gene_valley_locus(w, gid, chrom, p, strand):
 
 ZOO_ALL = ("ambiguous_only", "twins", "contested", "intronic", "apa", "alt_terminal", "shifted_site", "shared_chain", "same_coords",
            "one_bp_exon", "lowmapq_two_exon", "mono_only", "gap_gene", "gene_valley", "odd_chroms",
-           "near_site_novel", "low_cov_novel", "two_exon_alt_polya", "dense_two_exon", "antisense_shared_exon", "micro_exon_sibling", "mixed_strand_gene", "two_cluster", "early_end_isoform", "noncanonical_novel", "two_genes_shared_introns")
+           "near_site_novel", "low_cov_novel", "two_exon_alt_polya", "dense_two_exon", "antisense_shared_exon", "micro_exon_sibling", "mixed_strand_gene", "two_cluster", "early_end_isoform", "noncanonical_novel", "two_genes_shared_introns", "weak_known_sibling")
 ZOO_NO_TIES = tuple(z for z in ZOO_ALL if z != "twins")
 
 
@@ -1039,6 +1068,9 @@ def add_zoo(w, parts=ZOO_ALL):
         if "two_genes_shared_introns" in parts and room(8500):
             two_genes_shared_introns_locus(w, "ZTG" + tag, chrom, _free_pos(w, chrom), "+-"[ci % 2])
             placed.add("two_genes_shared_introns")
+        if "weak_known_sibling" in parts and room(8000):
+            weak_known_sibling_locus(w, "ZWK" + tag, chrom, _free_pos(w, chrom), "+-"[ci % 2])
+            placed.add("weak_known_sibling")
         if "early_end_isoform" in parts and room(6500):
             early_end_isoform_locus(w, "ZEE" + tag, chrom, _free_pos(w, chrom), "+-"[ci % 2])
             placed.add("early_end_isoform")
